@@ -2,6 +2,7 @@ package main
 
 import (
 	"fmt"
+	"reflect"
 	"regexp"
 	"sort"
 	"strconv"
@@ -326,6 +327,23 @@ func checkC12(c *Ctx, n int) {
 			argv = g.genArgv(realA)
 			g.p.ArgvLen = save
 		}
+		if g.chance(0.3) {
+			// a scalar option brought to the zero value of its type although it declares another default
+			for _, grp := range allGroups(realA.p.Command) {
+				for _, o := range grp.Options() {
+					ln := o.LongNameWithNamespace()
+					if len(o.Default) == 0 || len(o.Choices) > 0 || ln == "" || strings.ContainsAny(ln, "=%") || strings.HasPrefix(ln, "-") || o.OptionalArgument {
+						continue
+					}
+					switch code := realA.optCode(o); {
+					case code == "str":
+						argv = append(argv, "--"+ln+"=")
+					case code == "int" || code == "i8" || code == "i16" || code == "i32" || code == "i64" || code == "uint" || code == "u8" || code == "u16" || code == "u32" || code == "u64" || code == "f32" || code == "f64" || code == "dur":
+						argv = append(argv, "--"+ln+"=0")
+					}
+				}
+			}
+		}
 		a := *cs
 		a.Ops = []Op{{Kind: "parse", Args: argv}, {Kind: "iniwrite", Bits: bits}}
 		a.Description = describeOps(&a)
@@ -481,8 +499,144 @@ func checkC14(c *Ctx, n int) {
 		if real.dead {
 			continue
 		}
-		mode := c.Rng.Intn(3)
+		mode := c.Rng.Intn(5)
 		switch mode {
+		case 3: // a line far longer than the reader's buffer: read whole, the other lines undisturbed
+			g.plainIni = true
+			clean := g.genIniText(real, iniProfile{})
+			var names []string
+			for _, grp := range allGroups(real.p.Command) {
+				for _, o := range grp.Options() {
+					if real.optCode(o) == "str" && len(o.Choices) == 0 && reflectTag(o, "no-ini") == "" && reflectTag(o, "ini-name") == "" {
+						names = append(names, o.Field().Name)
+					}
+				}
+			}
+			if len(names) == 0 {
+				continue
+			}
+			// (only the entries of the global section: the long line must address the parser's own groups)
+			if at := strings.Index("\n"+clean, "\n["); at >= 0 {
+				clean = clean[:at]
+			}
+			name := names[c.Rng.Intn(len(names))]
+			if clean != "" && !strings.HasSuffix(clean, "\n") {
+				clean += "\n"
+			}
+			var lb strings.Builder
+			size := []int{100, 4000, 4090, 4096, 4097, 5000, 8192, 8200, 20000, 70000}[c.Rng.Intn(10)]
+			for k := 0; lb.Len() < size; k++ {
+				fmt.Fprintf(&lb, "%05d|", k)
+			}
+			long := lb.String()
+			// (the entries of the clean text come first, so the long line is the last word on its option)
+			text := clean + name + " = " + long + "\n"
+			tail := []string{"", "; after\n", "\n"}[c.Rng.Intn(3)]
+			a, b := *cs, *cs
+			a.Ops = []Op{{Kind: "iniparse", Text: clean}}
+			b.Ops = []Op{{Kind: "iniparse", Text: text + tail}}
+			a.Description, b.Description = describeOps(&a), fmt.Sprintf("ini text of %d bytes ending in a line of %d bytes for %s", len(text), len(long)+len(name)+3, name)
+			var ra, rb *CaseResult
+			c.RunCases([]*Case{&a, &b}, func(cr *CaseResult) {
+				if ra == nil {
+					ra = cr
+				} else {
+					rb = cr
+				}
+			})
+			if ra == nil || rb == nil || rb.Real == nil {
+				continue
+			}
+			c.Class(fmt.Sprintf("c14/long-line size=%d", size))
+			c.Distinct(b.Description + clean)
+			ia, ib := firstLine(ra.Impl, "INI "), firstLine(rb.Impl, "INI ")
+			va, vb := optionValues(ra.Impl, "INI ", 0), optionValues(rb.Impl, "INI ", 0)
+			ref := rb.Real.optRef[name]
+			in := map[string]interface{}{"clean_text": clean, "long_line_for": name, "long_line_bytes": len(long), "value_starts": long[:24], "value_ends": long[len(long)-24:]}
+			ok := strings.Fields(ia + " x")[1] != "ok" || strings.Fields(ib + " x")[1] == "ok"
+			got := decodeLine(ib)
+			if ok && strings.Fields(ia + " x")[1] == "ok" {
+				if vb[ref] != showVal("str", reflect.ValueOf(long)) {
+					ok = false
+					dv := decodeLine(vb[ref])
+					if len(dv) > 80 {
+						dv = dv[:40] + " … " + dv[len(dv)-40:]
+					}
+					got = fmt.Sprintf("%s holds %d bytes: %s", name, len(decodeLine(vb[ref])), dv)
+				}
+				for k, v := range va {
+					if k != ref && vb[k] != v {
+						ok = false
+						got = "option " + k + " differs from the text without the long line"
+					}
+				}
+			}
+			if !ok {
+				in["case_file"] = c.saveCase(rb)
+			}
+			c.Check("long-line-is-read-whole-and-disturbs-nothing", ok, "C14:long-line", in, got, "the whole value stored, every other option as without the line")
+		case 4: // IgnoreUnknown: unknown options (and a trailing unknown section) are skipped, the rest applied
+			g.plainIni = true
+			clean := g.genIniText(real, iniProfile{})
+			lines := strings.Split(strings.TrimRight(clean, "\n"), "\n")
+			if clean == "" {
+				lines = nil
+			}
+			var with []string
+			k := 0
+			for li, l := range lines {
+				if c.Rng.Intn(3) == 0 && !(li > 0 && false) {
+					with = append(with, fmt.Sprintf("zzNoSuchOption%d = %d", k, k))
+					k++
+				}
+				with = append(with, l)
+			}
+			if c.Rng.Intn(2) == 0 {
+				with = append(with, "zzNoSuchOptionLast = 1")
+				k++
+			}
+			if c.Rng.Intn(3) == 0 {
+				with = append(with, "[zzNoSuchSection]", "a = 1", "b = 2")
+				k++
+			}
+			if k == 0 {
+				continue
+			}
+			a, b := *cs, *cs
+			a.Opts |= flags.IgnoreUnknown
+			b.Opts |= flags.IgnoreUnknown
+			a.Ops = []Op{{Kind: "iniparse", Text: clean}}
+			b.Ops = []Op{{Kind: "iniparse", Text: strings.Join(with, "\n") + "\n"}}
+			a.Description, b.Description = describeOps(&a), describeOps(&b)
+			var ra, rb *CaseResult
+			c.RunCases([]*Case{&a, &b}, func(cr *CaseResult) {
+				if ra == nil {
+					ra = cr
+				} else {
+					rb = cr
+				}
+			})
+			if ra == nil || rb == nil {
+				continue
+			}
+			c.Class("c14/ignore-unknown-pair")
+			c.Distinct(b.Description)
+			ia, ib := firstLine(ra.Impl, "INI "), firstLine(rb.Impl, "INI ")
+			same := strings.Fields(ia + " x")[1] == strings.Fields(ib + " x")[1]
+			va, vb := optionValues(ra.Impl, "INI ", 0), optionValues(rb.Impl, "INI ", 0)
+			diff := ""
+			for k, v := range va {
+				if vb[k] != v {
+					same = false
+					diff = fmt.Sprintf("; option %s: %s instead of %s", k, decodeLine(vb[k]), decodeLine(v))
+				}
+			}
+			in := map[string]interface{}{"known_entries": clean, "with_unknown_entries": strings.Join(with, "\n")}
+			if !same {
+				in["case_file_known"] = c.saveCase(ra)
+				in["case_file_with_unknown"] = c.saveCase(rb)
+			}
+			c.Check("unknown-entries-are-skipped-and-the-rest-applied", same, "C14:ignore-unknown", in, decodeLine(ib)+diff, decodeLine(ia)+" and the same option values")
 		case 0: // arbitrary / noisy files: no panic, correspondence
 			cc := *cs
 			ip := iniProfile{Noise: 0.5, Fault: 0.3, Unknown: 0.2, Bytes: 0.3}
